@@ -733,13 +733,6 @@ void deterministic(Run& run, const std::function<void(const std::vector<uint8_t>
 	for (int gid = 0; gid < 8; gid++) {
 		int depth = gid < 2 ? (thorough ? 4 : 3) : gid < 6 ? (thorough ? 3 : 2) : 2;
 		std::function<void(std::vector<uint16_t>&, int)> rec = [&](std::vector<uint16_t>& picks, int d) {
-			// replay prefix to know the number of choices at this point
-			World w;
-			startGraph(w, gid);
-			for (auto p : picks) {
-				auto cs = allCommands(w);
-				apply(w, cs[p % cs.size()]);
-			}
 			std::vector<uint8_t> tape = {0xFD, static_cast<uint8_t>(gid), static_cast<uint8_t>(picks.size())};
 			for (auto p : picks) {
 				tape.push_back(static_cast<uint8_t>(p & 255));
@@ -747,6 +740,17 @@ void deterministic(Run& run, const std::function<void(const std::vector<uint8_t>
 			}
 			if (!picks.empty())
 				feed(tape);
+			// replay the prefix to know the number of choices at this point; this executes library code
+			// outside a case (and in every shard), so the tape is announced first: a crash here is then
+			// attributed to it and reproduced by its replay
+			if (run.noteCurrent && !picks.empty())
+				run.noteCurrent(tape.data(), tape.size());
+			World w;
+			startGraph(w, gid);
+			for (auto p : picks) {
+				auto cs = allCommands(w);
+				apply(w, cs[p % cs.size()]);
+			}
 			if (d == 0)
 				return;
 			size_t nc = allCommands(w).size();
